@@ -71,7 +71,7 @@ def become_users():
     return out
 
 
-def run_transfer(root, pre, argv_or_cmd, chdir, become, vh_exit, rash_env_args, post=True, missing=False):
+def run_transfer(root, pre, argv_or_cmd, chdir, become, vh_exit, rash_env_args, post=True, missing=False, ignore=False):
     shutil.rmtree(root, ignore_errors=True)
     os.makedirs(os.path.join(root, "wd sub"))
     os.chmod(root, 0o777)
@@ -90,6 +90,8 @@ def run_transfer(root, pre, argv_or_cmd, chdir, become, vh_exit, rash_env_args, 
     L += ["    transfer_pid: true"]
     if become is not False and become is not None:
         L += ["  become: true", "  become_user: %s" % json.dumps(become if isinstance(become, str) else "nobody")]
+    if ignore:
+        L += ["  ignore_errors: true"]
     if post:
         L += ["- command:", "    cmd: \"echo post >> %s/log\"" % root]
     open(os.path.join(root, "main.rh"), "w").write("\n".join(L) + "\n")
@@ -123,7 +125,7 @@ def c14(run, replay=None):
         for chdir in (None, "wd sub"):
             for become in ([False] + [u[0] for u in become_users()] if nb and os.geteuid() == 0 else [False]):
                 for pre in (0, 2):
-                    cases.append(dict(args=args, chdir=chdir, become=become, pre=pre, vh_exit=rng.choice([0, 1, 7, 42, 255])))
+                    cases.append(dict(args=args, chdir=chdir, become=become, pre=pre, vh_exit=rng.choice([0, 1, 7, 42, 255]), ignore=(rng.random() < 0.3)))
     if run.tier == "quick":
         cases = rng.sample(cases, min(len(cases), 40)) + cases[:10]
     for st in range(0, 256, (51 if run.tier == "quick" else 1)):
@@ -135,7 +137,8 @@ def c14(run, replay=None):
         root = os.path.join(C.SANDBOX, "x%d" % si)
         for idx, c in parts[si]:
             chdir = os.path.join(root, c["chdir"]) if c["chdir"] else None
-            res[idx] = run_transfer(root, c["pre"], [C.VH, "execdump"] + c["args"], chdir, c["become"], c["vh_exit"], ["-e", "VP_FROM_E=e v", "-e", "HOME=/custom/home"])
+            res[idx] = run_transfer(root, c["pre"], [C.VH, "execdump"] + c["args"], chdir, c["become"], c["vh_exit"], ["-e", "VP_FROM_E=e v", "-e", "HOME=/custom/home"],
+                                    ignore=c.get("ignore", False))
             res[idx]["root"] = root
     ths = [threading.Thread(target=work, args=(i,)) for i in range(len(parts))]
     [t.start() for t in ths]
@@ -333,6 +336,13 @@ def c15(run, replay=None):
     if o["rc"] != 0 or not o["stdout"].startswith(want) or ("<<u>> é✓ 12 true 0 true %d" % os.getuid()) not in o["stdout"]:
         run.violation("become credentials / registered result: %r" % o, dict(script=script, observed=o))
     # every way of naming the user: uid AND primary gid of the passwd entry, inside; the caller's own, after
+    # the same user id written as a YAML NUMBER (K47: it used to be ignored and the task ran as root)
+    for bu, uid, gid in become_users():
+        if bu.isdigit():
+            sc = "#!/usr/bin/env rash\n- command: id -u\n  become: true\n  become_user: %s\n- command: id -g\n  become: true\n  become_user: %s\n" % (bu, bu)
+            o = E.run_impls([dict(files={"main.rh": dict(raw=sc)}, world_writable=True)], timeout=15)[0]
+            if o["rc"] != 0 or o["stdout"] != "%d\n\n%d\n\n" % (uid, gid):
+                run.violation("become_user: %s (unquoted number): expected uid/gid %d/%d, got stdout %r (rc %r)" % (bu, uid, gid, o["stdout"], o["rc"]), dict(script=sc, observed=o))
     for bu in become_texts():
         path, mc, mainc = model_become(bu, True, False)
         if path == "user-not-found":
@@ -362,6 +372,12 @@ def c15(run, replay=None):
     if plain_o["rc"] != 0 or (plain_o["rc"], plain_o["stdout"]) != (bec_o["rc"], bec_o["stdout"]):
         run.violation("become changes the result of loosely-equal overwrites: without become %r, with become %r" % (plain_o["stdout"][-160:], bec_o["stdout"][-160:]),
                       dict(script=wr, without_become=plain_o, with_become=bec_o))
+    # a module that simply takes a while (longer than any plausible transfer timeout) under become
+    slow = ("#!/usr/bin/env rash\n- command: \"sh -c 'sleep %d; echo done-sleeping'\"\n  become: true\n  become_user: nobody\n  register: r\n"
+            "- debug:\n    msg: \"<<slow>> {{ r.output | trim }} {{ r.extra.rc }}\"\n") % (7 if run.tier == "quick" else 35)
+    o = E.run_impls([dict(files={"main.rh": dict(raw=slow)}, world_writable=True)], timeout=90)[0]
+    if o["rc"] != 0 or "<<slow>> done-sleeping 0" not in o["stdout"]:
+        run.violation("a become task that runs for several seconds: rc=%r stdout tail %r stderr %r" % (o["rc"], o["stdout"][-120:], o["stderr"][-120:]), dict(script=slow, observed=o))
     # K38: a non-finite number in the store does not survive the JSON trip of a become task
     sc = ("#!/usr/bin/env rash\n- set_vars:\n    x: .inf\n    y: 1.5\n- debug:\n    msg: \"before {{ x }} {{ y }}\"\n- command: \"true\"\n  become: true\n  become_user: nobody\n"
           "- debug:\n    msg: \"after {{ x }} {{ y }}\"\n")
